@@ -1,1 +1,139 @@
-import sys; sys.exit(2)
+#!/venv/bin/python
+"""/verif/check.py <Cnn> [--tier quick|thorough] [--replay <path>]
+
+Static analysis of /repo's current working tree (nothing of bt is imported or executed).
+exit 0: every rule instance of the property held (listed known findings are printed);
+exit 1: VIOLATION lines for violations not listed in known_findings.json;
+exit 2: ANALYSIS-ERROR (an anchor vanished or a construct is not understood) - never a silent pass.
+"""
+import json
+import os
+import sys
+import time
+import traceback
+
+HERE = os.path.dirname(os.path.abspath(__file__))
+sys.path.insert(0, HERE)
+
+from btlint import registry  # noqa: E402
+from btlint.report import Check, load_known  # noqa: E402
+from btlint.source import AnalysisError, Program  # noqa: E402
+
+
+def run(pid, tier, replay=None, repo=None, quiet=False, write=True):
+    t0 = time.time()
+    seed = int(os.environ.get("VERIF_SEED", "0") or 0)
+    out = []
+    try:
+        prog = Program() if repo is None else Program(repo)
+        chk = Check(pid, prog, tier=tier, inline_depth=2 if tier == "quick" else 4)
+        registry.run_property(pid, chk)
+        audit = None
+        if tier == "thorough" and replay is None:
+            from btlint import audit as audit_mod
+
+            audit = audit_mod.run_audit(pid, seed)
+    except AnalysisError as e:
+        print("ANALYSIS-ERROR property=%s %s" % (pid, e))
+        return 2
+    except Exception:
+        print("ANALYSIS-ERROR property=%s internal error: %s" % (pid, traceback.format_exc().strip().splitlines()[-1]))
+        traceback.print_exc(file=sys.stderr)
+        return 2
+    known = load_known()
+    listed = {(k["rule"], k["module"], k["host"], k["key"]): k for k in known.get("findings", []) if k.get("property") == pid}
+    new, seen_known = [], []
+    for v in chk.violations:
+        if v.ident() in listed:
+            seen_known.append(v)
+        else:
+            new.append(v)
+    if replay:
+        want = json.load(open(replay))
+        new = [v for v in new if [v.rule, v.module, v.host, v.key] == want.get("ident")]
+    vdir = os.path.join(HERE, "evidence", "violations")
+    for v in seen_known:
+        print("KNOWN-FINDING: property=%s rule=%s %s %s: %s" % (pid, v.rule, v.where or v.module, v.host, v.message))
+    code = 0
+    for i, v in enumerate(new):
+        os.makedirs(vdir, exist_ok=True)
+        path = os.path.join(vdir, "%s-%d.json" % (pid, i))
+        d = v.to_json()
+        d["ident"] = [v.rule, v.module, v.host, v.key]
+        d["property"] = pid
+        with open(path, "w") as f:
+            json.dump(d, f, indent=1)
+        print("VIOLATION property=%s replay=%s" % (pid, path))
+        print("  rule=%s at %s in %s: %s" % (v.rule, v.where or v.module, v.host, v.message))
+        if v.expected is not None:
+            print("    expected: %s" % v.expected)
+        if v.found is not None:
+            print("    found:    %s" % v.found)
+        code = 1
+    if audit is not None:
+        for line in audit.get("lines", []):
+            print(line)
+        if audit.get("failed"):
+            print("ANALYSIS-ERROR property=%s audit failed: %s" % (pid, audit["failed"]))
+            code = code or 2
+    wall = time.time() - t0
+    if write and not replay and not os.environ.get("BT_NO_EVIDENCE"):
+        ev = {
+            "property_id": pid,
+            "tier": tier,
+            "seed": seed,
+            "level": "other",
+            "wall_s": round(wall, 3),
+            "violations": len(new),
+            "coverage": {
+                "explanation": " ".join(chk.explanations) or "static rule set for %s" % pid,
+                "obligations": chk.obligations,
+                "discharged": chk.discharged,
+                "evaluations": max(chk.obligations, 1),
+                "distinct_nontrivial": len(chk.distinct),
+                "rule": "one obligation per rule instance (rule id, host function, construct); distinct = distinct (rule, module, host, construct-key) tuples; "
+                        "all are non-trivial by construction: each names a construct found in /repo's source on this run",
+                "samples": chk.samples[:12] or [{"note": "no sample recorded"}],
+                "exhaustive": True,
+                "functions_analysed": sorted(chk.functions),
+                "rule_instances": chk.rules,
+                "floor_counts": chk.floor,
+                "known_findings_seen": [v.to_json() for v in seen_known],
+                "notes": chk.notes,
+                "checker_cmd": "/venv/bin/python /verif/check.py %s --tier %s" % (pid, tier),
+                "trusted_base": ["python ast", "btlint engine (gated value graph, algebra, effect summaries)", "pandas indexing model stated in assumptions"],
+            },
+            "assumptions": chk.assumptions,
+        }
+        if audit is not None:
+            ev["coverage"]["audit"] = audit.get("summary")
+        os.makedirs(os.path.join(HERE, "evidence"), exist_ok=True)
+        with open(os.path.join(HERE, "evidence", "%s.json" % pid), "w") as f:
+            json.dump(ev, f, indent=1, default=str)
+    if not quiet:
+        print("%s: %d obligations, %d discharged, %d new violations, %d known findings, %.2fs" % (pid, chk.obligations, chk.discharged, len(new), len(seen_known), wall))
+    return code
+
+
+def main(argv):
+    if len(argv) < 2:
+        print(__doc__)
+        return 2
+    pid = argv[1]
+    tier = os.environ.get("VERIF_TIER") or "quick"
+    replay = None
+    i = 2
+    while i < len(argv):
+        if argv[i] == "--tier":
+            tier = os.environ.get("VERIF_TIER") or argv[i + 1]
+            i += 2
+        elif argv[i] == "--replay":
+            replay = argv[i + 1]
+            i += 2
+        else:
+            i += 1
+    return run(pid, tier, replay)
+
+
+if __name__ == "__main__":
+    sys.exit(main(sys.argv))
